@@ -1,6 +1,7 @@
 package checks
 
 import (
+	"bytes"
 	"context"
 	"encoding/hex"
 	"encoding/json"
@@ -24,6 +25,8 @@ type c10Case struct {
 	Stream bool    `json:"stream,omitempty"`
 	Env    EnvCfg  `json:"env"`
 	Desc   string  `json:"desc"`
+	Pre    int     `json:"preface,omitempty"` // bytes consumed from the same reader (and not released) before Decode
+	EnvChoices
 }
 
 func mapsEqStr(a, b map[string]string) bool {
@@ -55,6 +58,7 @@ func c10One(c *mc.Ctx, frame []byte, k c10Case) {
 	c.Eval(1)
 	want, wok, why := ref.TTHDecode(frame, ttheader.GDPRToken)
 	bad := func(class, format string, a ...interface{}) {
+		k.EnvChoices = currentEnvChoices()
 		if len(frame) <= 400 {
 			k.Hex = hex.EncodeToString(frame)
 		}
@@ -70,14 +74,30 @@ func c10One(c *mc.Ctx, frame []byte, k c10Case) {
 	mcache.VerifReset()
 	pi := mc.Try(func() {
 		var r bufiox.Reader
+		src := frame
+		if k.Pre > 0 {
+			src = append(bytes.Repeat([]byte{0x5a}, k.Pre), frame...)
+		} else if k.Stream {
+			src = append([]byte{}, frame...)
+		}
 		if k.Stream {
-			r = bufiox.NewDefaultReader(NewEnvReader(frame, k.Env))
+			r = bufiox.NewDefaultReader(NewEnvReader(src, k.Env))
 		} else {
-			r = bufiox.NewBytesReader(frame)
+			r = bufiox.NewBytesReader(src)
+		}
+		if k.Pre > 0 {
+			r.Next(k.Pre) // a preface / an earlier message on the same connection, not yet released
 		}
 		got, err = ttheader.Decode(context.Background(), r)
-		readLen = r.ReadLen()
+		readLen = r.ReadLen() - k.Pre
 		r.Release(nil)
+		if k.Stream || k.Pre > 0 {
+			// the reader's buffers are recycled and the input reused: decoded maps must not change
+			mcache.VerifCoTenant(true)
+			for i := range src {
+				src[i] = 0xEE
+			}
+		}
 		if !k.Stream {
 			g2, e2 := ttheader.DecodeFromBytes(context.Background(), frame)
 			if (e2 == nil) != (err == nil) || (err == nil && (g2.HeaderLen != got.HeaderLen || g2.PayloadLen != got.PayloadLen || g2.Flags != got.Flags || g2.SeqID != got.SeqID || !mapsEqStr(g2.StrInfo, got.StrInfo) || !mapsEqInt(g2.IntInfo, got.IntInfo))) {
@@ -296,6 +316,8 @@ func c10Run(c *mc.Ctx) {
 						for _, env := range senvs {
 							c10One(c, f, c10Case{Stream: true, Env: env, Desc: fmt.Sprintf("sections %d,%d,%d", a, b, d)})
 						}
+						c10One(c, f, c10Case{Pre: 7, Desc: fmt.Sprintf("sections %d,%d,%d after a 7-byte preface", a, b, d)})
+						c10One(c, f, c10Case{Stream: true, Pre: 43, Env: senvs[len(senvs)-1], Desc: fmt.Sprintf("sections %d,%d,%d after a 43-byte preface", a, b, d)})
 						if d < 0 { // per-Read deviations (<= 1, thorough 2) on frames with up to two sections
 							bd := 1
 							if th {
@@ -353,7 +375,7 @@ func init() {
 				} else {
 					f = c10Build(k.Gen, k.Args)
 				}
-				c10One(c, f, k)
+				withEnvChoices(k.EnvChoices, func() { c10One(c, f, k) })
 			})
 		},
 	})
